@@ -25,3 +25,10 @@ Definition keypair_check (c : (Coll.pv * str) * (Coll.pv * str)) : bool :=
   Bool.eqb (Coll.keq (fst (fst c)) (fst (snd c))) same &&
   Bool.eqb (CollKey.key_eqb (fst (fst c)) (fst (snd c))) same.
 Definition keypair_mismatches (cs : list ((Coll.pv * str) * (Coll.pv * str))) : list N := failing keypair_check cs.
+
+(* The Array as a sequence of arbitrary values (Model/CollSeq.v): elements without a hash key, values equal to
+   nothing.  Results are compared by identity of the elements (elem_same), not by Equals. *)
+From PcoreV Require Model.CollSeq.
+Definition seq_check (c : list CollSeq.sop * list CollSeq.sout) : bool :=
+  list_eqb CollSeq.sout_eqb (CollSeq.srun (fst c)) (snd c).
+Definition seq_mismatches (cs : list (list CollSeq.sop * list CollSeq.sout)) : list N := failing seq_check cs.
